@@ -124,7 +124,9 @@ func (r *reinitRun) scenario(outDir string, n, t int, interleave, junk, adapt, b
 		// … and a second opening proposal under the SAME round id, from an outsider, naming only the first participant and
 		// a stranger (opening proposals are not signed; every node refuses it: the round is open already). The participants
 		// of the re-initialised round are those of the proposal that opened it
-		if pk0, err := a.nodes[0].air.GetPubKey().MarshalBinary(); err == nil {
+		// (not in every junk log: the file made from a dump lists the participants of every opening proposal it holds, and
+		// what depends on their number must also be seen with the true number)
+		if pk0, err := a.nodes[0].air.GetPubKey().MarshalBinary(); err == nil && !interleave {
 			stranger := keystore.NewKeyPair()
 			rogue := requests.SignatureProposalParticipantsListRequest{SigningThreshold: 2, CreatedAt: time.Now(), Participants: []*requests.SignatureProposalParticipantsEntry{
 				{Username: a.nodes[0].name, PubKey: a.nodes[0].kp.Pub, DkgPubKey: pk0},
